@@ -51,8 +51,8 @@ type taskSpec struct {
 }
 
 type forcing struct {
-	Prob map[string]int `json:"prob"` // yield point -> probability (percent) of a forced delay
-	MaxUs int           `json:"maxus"`
+	Prob  map[string]int `json:"prob"` // yield point -> probability (percent) of a forced delay
+	MaxUs int            `json:"maxus"`
 }
 
 type scenario struct {
@@ -122,6 +122,18 @@ func (r *recorder) release(g int64) {
 		r.holder.Store(0)
 		r.mu.Unlock()
 	}
+}
+
+// hlock is the harness's own access to the log; it gives up (false) when a hook left the mutex held for
+// seconds — only possible if the hooks of the code under test no longer come in the expected order.
+func (r *recorder) hlock() bool {
+	for i := 0; i < 30000; i++ {
+		if r.mu.TryLock() {
+			return true
+		}
+		time.Sleep(100 * time.Microsecond)
+	}
+	return false
 }
 
 // add appends under the lock (the caller holds it).
@@ -246,8 +258,8 @@ func (r *recorder) sink(point string, args ...any) {
 func (r *recorder) h(kind string, tid int, a int64) {
 	g := gid()
 	held := r.holder.Load() == g
-	if !held {
-		r.mu.Lock()
+	if !held && !r.hlock() {
+		return
 	}
 	r.add(rawEv{g: g, kind: "h:" + kind, tid: tid, a: a})
 	if !held {
@@ -298,13 +310,17 @@ func waitParked(max time.Duration, wantToks int) error {
 	for {
 		c, _ := modules.VerifMicroTasks()
 		qm, ql, fin := modules.VerifMicroTaskQueues()
-		rec.mu.Lock()
+		if !rec.hlock() {
+			return errors.New("log mutex held by a hook that never completed its bracket (unexpected hook order)")
+		}
 		ls, n, toks := rec.lastSched, rec.nSched, rec.toks
 		rec.mu.Unlock()
 		if toks >= wantToks && c == 0 && qm == 0 && ql == 0 && (ls == "space" || ls == "shut" || modules.IsShuttingDown()) {
 			// stable? the scheduler must not have moved for a moment
 			time.Sleep(200 * time.Microsecond)
-			rec.mu.Lock()
+			if !rec.hlock() {
+				return errors.New("log mutex held by a hook that never completed its bracket (unexpected hook order)")
+			}
 			same := rec.nSched == n
 			rec.mu.Unlock()
 			c2, _ := modules.VerifMicroTasks()
@@ -331,17 +347,18 @@ func waitParked(max time.Duration, wantToks int) error {
 }
 
 type runResult struct {
-	evs      []rawEv
-	startSch string
-	hang     bool
-	startFin int
-	settle   error
-	finalCnt int64
-	finalMod []int64
-	status   string // GetStatus() summary
-	parkedMs int64
-	shutMs   int64 // shutdown class: how long Shutdown() took after the last task ended (-1: not called)
-	thr      int64
+	evs       []rawEv
+	startSch  string
+	hang      bool
+	hookStuck bool // a hook opened a bracket and the closing hook never came: the hook order is not the expected one
+	startFin  int
+	settle    error
+	finalCnt  int64
+	finalMod  []int64
+	status    string // GetStatus() summary
+	parkedMs  int64
+	shutMs    int64 // shutdown class: how long Shutdown() took after the last task ended (-1: not called)
+	thr       int64
 }
 
 func maxDelayOf(t taskSpec) time.Duration {
@@ -411,9 +428,9 @@ func runScenario(sc *scenario) *runResult {
 		}
 	}
 
-	var wg sync.WaitGroup     // submitters
-	var fnWg sync.WaitGroup   // functions of Start* tasks
-	var lastEnd atomic.Int64  // unix nanos of the last function end
+	var wg sync.WaitGroup    // submitters
+	var fnWg sync.WaitGroup  // functions of Start* tasks
+	var lastEnd atomic.Int64 // unix nanos of the last function end
 	taskErrs := make([]error, len(sc.Tasks))
 	for i := range taskErrs {
 		taskErrs[i] = fmt.Errorf("task %d failed", i)
@@ -563,11 +580,14 @@ func runScenario(sc *scenario) *runResult {
 			res.shutMs = 20000
 		}
 	}
-	rec.mu.Lock()
-	rec.on = false
-	res.evs = rec.evs
-	rec.evs = nil
-	rec.mu.Unlock()
+	if rec.hlock() {
+		rec.on = false
+		res.evs = rec.evs
+		rec.evs = nil
+		rec.mu.Unlock()
+	} else {
+		res.hookStuck = true
+	}
 	c, _ := modules.VerifMicroTasks()
 	res.finalCnt = int64(c)
 	for _, m := range mods {
@@ -606,6 +626,10 @@ func canon(sc *scenario, res *runResult) []string {
 	// count 0; with count 0 that decision is the same under the new limit
 	if res.startSch == "space" {
 		lines = append(lines, fmt.Sprintf("s space 0 %d", res.thr))
+	}
+	if res.hookStuck {
+		// not a statement about the property: the tie itself is broken (reported as a disagreement)
+		return append(lines, "hook-order-broken")
 	}
 	evs := res.evs
 	// pass 1: which task does a goroutine work for, at each point of the log
@@ -798,7 +822,7 @@ func (execT) Do(line string) string {
 	switch f[0] {
 	case "scn", "lim", "new", "t", "s", "h", "shutdown", "end":
 		return "ok"
-	case "child-failed", "boot-failed":
+	case "child-failed", "boot-failed", "hook-order-broken":
 		return "HARNESS-ERROR " + line
 	case "setmax":
 		if len(f) != 2 {
@@ -858,6 +882,9 @@ func monitor(c hxlib.Case, outs []string) []hxlib.Violation {
 	var sc scenario
 	if err := json.Unmarshal([]byte(c.Lines[0][4:]), &sc); err != nil {
 		return []hxlib.Violation{{Sig: "C15:bad-scenario-line", What: err.Error(), Lines: c.Lines}}
+	}
+	if c.Lines[len(c.Lines)-1] == "hook-order-broken" {
+		return nil // nothing was observed; the broken tie is reported through the correspondence
 	}
 	var vs []hxlib.Violation
 	add := func(sig, what string) {
@@ -1238,7 +1265,7 @@ func gen(r *hxlib.Run, emit func(hxlib.Case)) {
 		emit(hxlib.Case{Lines: []string{"setmax " + strconv.Itoa(n)}, Kind: "setmax", NonTrivial: true})
 	}
 	for i := 0; i < 20; i++ {
-		emit(hxlib.Case{Lines: []string{"setmax " + strconv.Itoa(r.Rng.Intn(70) - 5)}, Kind: "setmax", NonTrivial: true})
+		emit(hxlib.Case{Lines: []string{"setmax " + strconv.Itoa(r.Rng.Intn(70)-5)}, Kind: "setmax", NonTrivial: true})
 	}
 	// malformed lines: both sides must refuse them
 	for _, l := range []string{"", "setmax", "setmax x", "frobnicate 1"} {
@@ -1264,7 +1291,7 @@ func gen(r *hxlib.Run, emit func(hxlib.Case)) {
 		} else {
 			res := runScenario(sc)
 			lines = canon(sc, res)
-			if res.hang || res.settle != nil || res.finalCnt != 0 {
+			if res.hang || res.hookStuck || res.settle != nil || res.finalCnt != 0 {
 				stop = true // the process-global scheduler state is off: later scenarios would only echo this one
 			}
 			for _, v := range res.finalMod {
@@ -1334,8 +1361,8 @@ func main() {
 		return
 	}
 	hxlib.Main(&hxlib.Harness{
-		Prop: "C15",
-		Rule: "a case is one scenario (limit 2..8 or below the minimum, 1..16 submitting goroutines, 1..120 microtasks of every priority and variant incl. nil module, run times 0..3ms, nil/error/panic outcomes, 1..4 done() calls sequential or concurrent, max delays never/default/1..3ms, forced delays at the verif yield points, shutdown in a child process, queue flood) executed on the real scheduler; its hook trace is replayed through the Lean model (acceptor, counter values compared at every bracketed operation) and the monitor checks limit / exactly-once / returned error / zero counters / settled scheduler on the harness's own observations; non-trivial = at least two tasks and at least one clearance granted (or expiries); distinct = different scenario or different interleaving (hash of the whole trace)",
+		Prop:     "C15",
+		Rule:     "a case is one scenario (limit 2..8 or below the minimum, 1..16 submitting goroutines, 1..120 microtasks of every priority and variant incl. nil module, run times 0..3ms, nil/error/panic outcomes, 1..4 done() calls sequential or concurrent, max delays never/default/1..3ms, forced delays at the verif yield points, shutdown in a child process, queue flood) executed on the real scheduler; its hook trace is replayed through the Lean model (acceptor, counter values compared at every bracketed operation) and the monitor checks limit / exactly-once / returned error / zero counters / settled scheduler on the harness's own observations; non-trivial = at least two tasks and at least one clearance granted (or expiries); distinct = different scenario or different interleaving (hash of the whole trace)",
 		Generate: gen,
 		NewExec:  func(*hxlib.Run) hxlib.Exec { return execT{} },
 		Monitor:  monitor,
